@@ -177,8 +177,19 @@ func cmdCheck(args []string) int {
 		lvc := &VC{key: "lemma", lines: []string{lm.Raw}}
 		obls = append(obls, &Obligation{Name: "lemma/" + lm.Name, Kind: "LEMMA", Fn: "lemma", Tags: lm.Tags, Expect: "unsat", vc: lvc, RawQuery: lm.Raw + "\n(check-sat)\n", Desc: "lemma " + lm.Name, Where: lm.Line})
 	}
+	if *only == "" {
+		for _, o := range e.structuralObligations() {
+			if *prop != "" && len(o.Tags) > 0 && !hasTag(o.Tags, *prop) {
+				continue
+			}
+			obls = append(obls, o)
+		}
+	}
 	sem := make(chan struct{}, 16)
 	for i, o := range obls {
+		if o.Static {
+			continue
+		}
 		wg.Add(1)
 		sem <- struct{}{}
 		go func(i int, o *Obligation) {
@@ -477,7 +488,7 @@ func writeReplayFile(path string, o *Obligation, prop string) {
 	if len(o.All) == 0 {
 		fmt.Fprintf(&sb, "--- %s\n%s\n", o.Result.Solver, o.Result.Output)
 	}
-	if o.Expect == "unsat" {
+	if o.Expect == "unsat" && !o.Static && o.RawQuery == "" {
 		if cand := candidateModel(o); cand != "" {
 			fmt.Fprintf(&sb, "\n--- candidate counterexample (quantified hypotheses dropped; may be spurious)\n%s\n", cand)
 		}
